@@ -397,7 +397,7 @@ func Join(toks []string, st Style) string {
 					sb.WriteByte(' ')
 				}
 			case NewlineLayout:
-				ws := []string{" ", "\n", "\t", "  ", "\r\n", " \n "}
+				ws := []string{" ", "\n", "\t", "  ", "\r\n", " \n ", "\r", "\t\r"}
 				if st.Rng != nil {
 					k := st.Rng.Intn(len(ws) + 2)
 					if k < len(ws) {
